@@ -138,7 +138,7 @@ pub fn c17(quick: bool, seed: u64) -> Outcome {
     );
     o.assumptions.push("harness profile: opt-level 3, overflow-checks = on, debug-assertions = on (also for synth-utils and its dependencies)".into());
     o.assumptions.push("'fails to return' is decided as bounded liveness of the envelope; every other public operation is loop-free or bounded by the buffer capacity".into());
-    let cases = if quick { 40_000 } else { 2_000_000 };
+    let cases = if quick { 200_000 } else { 2_000_000 };
     let part = pt_run("api_any", api_case, cases, seed, 17, 4000, |c, st| run_case(c, st).map(|i| i.nontrivial));
     o.absorb(part);
     o
